@@ -211,7 +211,37 @@ pub fn run_mux<W: Write + Seek>(case: &MuxCase, w: W) -> MuxRun<W> {
             return MuxRun { writer: None, calls, model, all_ok: false, panicked: true, tracks_added };
         }
     }
+    // C17: the writer stays a live object after write_end; further calls must not panic either
+    let rounds = AFTER_END.with(|c| c.get());
+    for i in 0..rounds {
+        if i % 2 == 1 || rounds == 1 {
+            let op = case.ops.iter().rev().find(|o| o.track >= 1).cloned().unwrap_or(MOp { track: 1, size: 3, dur: 1, cts: 0, sync: true });
+            let sample = mp4::Mp4Sample { start_time: 0, duration: op.dur, rendering_offset: op.cts, is_sync: op.sync, bytes: mp4::Bytes::from(sample_bytes(op.track, 9_999, op.size.min(64))) };
+            match guard(|| writer.write_sample(op.track, &sample)) {
+                Ok(Ok(())) => calls.push(("write_sample-after-end".into(), CallOutcome::Ok)),
+                Ok(Err(e)) => calls.push(("write_sample-after-end".into(), CallOutcome::Err(e.to_string()))),
+                Err(p) => {
+                    calls.push(("write_sample".into(), CallOutcome::Panic(p)));
+                    return MuxRun { writer: None, calls, model, all_ok: false, panicked: true, tracks_added };
+                }
+            }
+        }
+        match guard(|| writer.write_end()) {
+            Ok(Ok(())) => calls.push(("write_end-again".into(), CallOutcome::Ok)),
+            Ok(Err(e)) => calls.push(("write_end-again".into(), CallOutcome::Err(e.to_string()))),
+            Err(p) => {
+                calls.push(("write_end".into(), CallOutcome::Panic(p)));
+                return MuxRun { writer: None, calls, model, all_ok: false, panicked: true, tracks_added };
+            }
+        }
+    }
     MuxRun { writer: Some(writer.into_writer()), calls, model, all_ok, panicked: false, tracks_added }
+}
+
+thread_local! {
+    /// number of extra (write_sample,) write_end rounds run_mux performs after the history's
+    /// write_end on this thread (C17 stage 'calls-after-write_end')
+    pub static AFTER_END: std::cell::Cell<u8> = const { std::cell::Cell::new(0) };
 }
 
 pub fn run_mux_vec(case: &MuxCase) -> (MuxRun<Cursor<Vec<u8>>>, Vec<u8>) {
